@@ -373,7 +373,29 @@ func (w *workerState) run(task Task) Reply {
 			if r2.Leaked {
 				w.leaked++
 			}
-			if r2.EngineErr != "" || fmt.Sprint(r2.Points) != fmt.Sprint(r.Points) || obsOf(r2) != obsOf(r) {
+			same := func(x *Result) bool {
+				return x.EngineErr == "" && fmt.Sprint(x.Points) == fmt.Sprint(r.Points) && obsOf(x) == obsOf(r)
+			}
+			ok := same(r2)
+			if !ok && r.Outcome != nil && len(r.Outcome.Violations) > 0 {
+				// a violating execution that does not reproduce at the first attempt: the implementation itself
+				// resolved something at random (a select with two ready cases that no gate separates). The
+				// violation was observed on the real code; it is kept if the same schedule reproduces it in one
+				// of four further attempts (the artefact then replays with that probability), dropped as an
+				// engine error otherwise.
+				for k := 0; k < 4 && !ok; k++ {
+					rk := Execute(w.t, sc, r.Choices)
+					rep.Rechecked++
+					if rk.Leaked {
+						w.leaked++
+					}
+					ok = same(rk)
+				}
+				if ok {
+					rep.Stats["violations-reproduced-after-retry"]++
+				}
+			}
+			if !ok {
 				rep.EngineErr = fmt.Sprintf("NONDETERMINISM: re-execution differs\n  scenario=%s choices=%v\n  first=%s\n  second=%s %s", task.Scenario, r.Choices, obsOf(r), obsOf(r2), r2.EngineErr)
 				return
 			}
